@@ -187,6 +187,7 @@ def shape_case(ctx, case):
     for i, leaf in sorted(leaves.items()):
         cnt += 1
         unl = leaf.unlocking_script().bytes
+        src_matches_bytes(ctx, leaf.unlocking_script(), 'unlocking script', f'shape {shape} leaf {i}')
         proof = ref_proof(shape, i)
         want_unl = items_to_witness([(c, s) for c, s in proof])
         if unl != want_unl:
@@ -362,6 +363,24 @@ def leaf_size_case(ctx, case):
     ctx.evaluations += max(cnt - 1, 0)
 
 
+def src_matches_bytes(ctx, script, what, detail):
+    """a generated Script object is one script: its source compiles to its byte code"""
+    try:
+        b = env.parsing.compile_script(script.src)
+    except BaseException as e:
+        b = repr(e)
+    ctx.ran()
+    if b != script.bytes:
+        ctx.violation({'clause': 'source of a generated script compiles to its byte code', 'what': what},
+                      f'{detail}: src compiles to {b if isinstance(b, str) else b.hex()[:120]}, bytes {script.bytes.hex()[:120]}')
+
+
+def salted_leaf(i):
+    """a compiled leaf whose source does not reproduce its byte code (comptime random salt, the idiom of the filler leaves)"""
+    lines = env.parsing.decompile_script(leaf_script(i))
+    return T.Script.from_src('\n'.join(lines) + '\npush ~! { push d6 random } pop0')
+
+
 def builder_case(ctx, n):
     cnt = 0
     srcs = lambda: [T.Script.from_bytes(leaf_script(i)) for i in range(n)]
@@ -379,8 +398,10 @@ def builder_case(ctx, n):
             ctx.ran()
             if v is not False or log != []:
                 ctx.violation({'builder': 'make_merklized_script_' + name, 'clause': 'filler leaves never authorize'}, f'n={n}: {v!r} {log}')
+        src_matches_bytes(ctx, lock, 'locking script', f'make_merklized_script_{name} n={n}')
         for i, u in enumerate(unlocks[:n]):
             cnt += 1
+            src_matches_bytes(ctx, u, 'unlocking script', f'make_merklized_script_{name} n={n} leaf {i}')
             v, log = run_auth([u.bytes, lock.bytes])
             ctx.ran()
             ctx.trans()
@@ -389,6 +410,26 @@ def builder_case(ctx, n):
             if log != [bytes([i])] or v is not own_verdict(i):
                 ctx.violation({'builder': 'make_merklized_script_' + name, 'clause': 'unlocking script i runs exactly leaf i with its own verdict'},
                               f'n={n} leaf {i}: verdict {v!r} recorder {log}')
+    # leaves given as compiled Script objects are committed by their byte code, whatever their source would compile to now
+    if n <= 9:
+        for name, mk in (('prioritized', T.make_merklized_script_prioritized), ('balanced', T.make_merklized_script_balanced)):
+            env.Rand.reset(b'c04-salt-%d' % n)
+            leaves = [salted_leaf(i) for i in range(n)]
+            try:
+                lock, unlocks = mk(list(leaves))
+            except BaseException as e:
+                ctx.violation({'builder': 'make_merklized_script_' + name, 'clause': 'builds', 'leaves': 'salted'}, f'n={n}: {e!r}')
+                continue
+            for i, u in enumerate(unlocks[:n]):
+                cnt += 1
+                v, log = run_auth([u.bytes, lock.bytes])
+                ctx.ran()
+                ctx.trans()
+                ctx.state((name, n, i, 'salted'))
+                ctx.outcome('builder-salted:%s' % v)
+                if leaves[i].bytes not in u.bytes or log != [bytes([i])] or v is not own_verdict(i):
+                    ctx.violation({'builder': 'make_merklized_script_' + name, 'clause': 'unlocking script i runs exactly leaf i with its own verdict',
+                                   'leaves': 'salted'}, f'n={n} leaf {i}: verdict {v!r} recorder {log}')
     for name, mk in (('prioritized', T.make_script_tree_prioritized), ('balanced', T.make_script_tree_balanced)):
         try:
             tree = mk(srcs())
